@@ -33,6 +33,7 @@ def run_execution(harness, params, prefix):
                         time_horizon=getattr(harness, "time_horizon", None),
                         fair_k=getattr(harness, "fair_k", 150))
     fp = getattr(harness, "fingerprint", None)
+    s.lock_points = getattr(harness, "lock_points", True)
     sched.ACTIVE = s
     if fp is not None:
         s.fingerprint = fp(params, s)
